@@ -172,7 +172,7 @@ func (h *H) runCase(g *pktgen.Gen, cs pktgen.Case) {
 			continue
 		}
 		key := tn + "." + d.Path.Norm() + "/value-differs"
-		if pktgen.IsComponentPath(g, d.Path) {
+		if pktgen.IsComponentPath(g, d.Path) && !strings.HasPrefix(d.A, "<nil") && !strings.HasPrefix(d.B, "<nil") {
 			// one key per wire representation, not per packet field: all go through ComponentHolder
 			key = "chat.ComponentHolder(json)/value-differs"
 			if c.Protocol.GreaterEqual(version.Minecraft_1_20_3) && !(c.State.State == states.LoginState) {
